@@ -206,8 +206,18 @@ fn opt_rate(s: &mut Src) -> Option<Decimal> {
 fn funds_for(w: &World, s: &mut Src, prof: &Profile, named: &[(String, u128)], pair: usize) -> Vec<Coin> {
     // named: native denoms named by the message with their declared amounts
     let mut coins: Vec<(String, u128)> = named.iter().filter(|(_, a)| *a > 0).cloned().collect();
+    let mut repeat = false;
     if s.below(16) < prof.funds_games_16 {
-        match s.weighted(&[3, 3, 3, 3, 2, 2, 2]) {
+        match s.weighted(&[3, 3, 3, 3, 2, 2, 2, 1]) {
+            7 if coins.len() >= 2 => {
+                // one named coin is missing and a REPEAT of the other named coin stands in its place (a chain
+                // refuses a coin list that repeats a denom before any contract runs; the test chain does not,
+                // and the only thing judged here is unambiguous either way: the missing denom was not attached)
+                let keep = s.idx(2);
+                let c = coins[keep].clone();
+                coins = vec![c.clone(), c];
+                repeat = true;
+            }
             6 => {
                 // the named amount arrives under the upper-case LOOK-ALIKE of the denom (a different coin), with
                 // nothing, one unit or a random amount of the true denom beside it
@@ -270,7 +280,9 @@ fn funds_for(w: &World, s: &mut Src, prof: &Profile, named: &[(String, u128)], p
     }
     let mut out: Vec<Coin> = coins.into_iter().filter(|(_, a)| *a > 0).map(|(d, a)| Coin { denom: d, amount: Uint128::new(a) }).collect();
     out.sort_by(|a, b| a.denom.cmp(&b.denom));
-    out.dedup_by(|a, b| a.denom == b.denom);
+    if !repeat {
+        out.dedup_by(|a, b| a.denom == b.denom);
+    }
     out
 }
 
